@@ -27,10 +27,14 @@ ASSUMPTIONS = ['all randomness of the routines enters through numpy.random.randi
 BOUNDS = {'quick': {'n_rdm': '1..3', 'n_cond': '2..4', 'deviation_bound': 'none (all draws)'},
           'thorough': {'n_rdm': '1..4', 'n_cond': '2..5', 'deviation_bound': 'none (all draws)'}}
 
-RDM_GROUPINGS = ['index', 'rid', 'grp', 'rname', 'ralt', 'rbig']
-RD = ('rid', 'grp', 'rname', 'ralt', 'rbig')
-PAT_GROUPINGS = ['index', 'cid', 'cat', 'name', 'pgrp', 'big']
-PD = ('cid', 'name', 'cat', 'pgrp', 'big')
+RDM_GROUPINGS = ['index', 'rid', 'grp', 'rname', 'ralt', 'rbig', 'rneg']
+RD = ('rid', 'grp', 'rname', 'ralt', 'rbig', 'rneg')
+PAT_GROUPINGS = ['index', 'cid', 'cat', 'name', 'pgrp', 'big', 'neg', 'lvl', 'flt']
+PD = ('cid', 'name', 'cat', 'pgrp', 'big', 'neg', 'lvl', 'flt')
+# value kinds that are crossed with 'index' and with their counterparts only (six-digit ids; signed integer
+# and float codes as centred level / contrast codes give them)
+NARROW_R = {'rbig': ('index', 'big'), 'rneg': ('index', 'neg', 'lvl', 'flt')}
+NARROW_P = {'big': ('index', 'rbig'), 'neg': ('index', 'rneg'), 'lvl': ('index', 'rneg'), 'flt': ('index', 'rneg')}
 ZERO_PAIRS = ((0, 1), (2, 3))
 
 
@@ -52,7 +56,7 @@ def _configs(tier):
                             (RDM_GROUPINGS.index(rd) * len(PAT_GROUPINGS) + PAT_GROUPINGS.index(pdn)) % (2 if cont == 'list' else 4) != 0:
                         continue
                     # the six-digit-id groupings are crossed with 'index' and with each other only
-                    if (rd == 'rbig' and pdn not in ('index', 'big')) or (pdn == 'big' and rd not in ('index', 'rbig')):
+                    if (rd in NARROW_R and pdn not in NARROW_R[rd]) or (pdn in NARROW_P and rd not in NARROW_P[pdn]):
                         continue
                     out.append(('bootstrap_sample', n_rdm, n_cond, rd, pdn, cont))
                 if (n_rdm, n_cond) in [(3, 4), (4, 5), (2, 3)]:
